@@ -480,7 +480,16 @@ class Translator:
            and 'value' not in b and self.ctype(n['type']) == 'u64':
             self.rules['a / b, a % b with non-constant b -> VERIF_UDIV / VERIF_UMOD'] += 1
             return '%s(%s, %s)' % ('VERIF_UDIV' if op == '/' else 'VERIF_UMOD', self.e(a), self.e(b))
+        if op == '*' and self.curfn and self.in_global_init_zero() and \
+           strip_casts(b, ('ImplicitCastExpr', 'ParenExpr', 'CStyleCastExpr', 'CXXStaticCastExpr', 'ConstantExpr')).get('kind') != 'IntegerLiteral' and \
+           strip_casts(a, ('ImplicitCastExpr', 'ParenExpr', 'CStyleCastExpr', 'CXXStaticCastExpr', 'ConstantExpr')).get('kind') != 'IntegerLiteral':
+            ct = self.ctype(n['type']).replace('const ', '').strip()
+            if ct in ('int', 'u32', 'u64', 's32', 's64', 'unsigned int', 'long', 'unsigned long'):
+                self.rules['a * b (both non-constant) -> VERIF_MUL(T, a, b)'] += 1
+                return 'VERIF_MUL(%s, %s, %s)' % (ct, self.e(a), self.e(b))
         return '(%s %s %s)' % (self.e(a), op, self.e(b))
+    def in_global_init_zero(self):
+        return not getattr(self, 'in_global_init', 0)
     def member_ptr_name(self, n):
         if n['kind'] == 'DeclRefExpr': return n['referencedDecl']['name']
         for c in inner(n):
@@ -869,6 +878,11 @@ class Translator:
                     self.func_src[fn] = ('std::' + name, '', 0)
                 if self.curfn: self.calls[self.curfn].add(fn)
                 return '%s(%s)' % (fn, ', '.join(self.e(a) for a in args))
+            if name == 'exchange':
+                ct = self.ctype(n['type']).replace('const ', '').strip()
+                if ct not in ('bool', 'u8', 'u16', 'u32', 'u64'): raise Unsupported('std::exchange on ' + ct)
+                self.rules['std::exchange -> verif_exchange_<type>'] += 1
+                return 'verif_exchange_%s(&(%s), %s)' % (ct, self.e(args[0]), self.e(args[1]))
             if name in self.STD_FUNCS:
                 self.rules['std::%s -> %s' % (name, self.STD_FUNCS[name])] += 1
                 return '%s(%s)' % (self.STD_FUNCS[name], ', '.join(self.e(a) for a in args))
@@ -1652,6 +1666,11 @@ class Translator:
                     out.append('static inline unsigned %s_args_%d(u16 opcode, u16 expansion, u64 *out) {\n%s    return %d; }' % (name0, k, ''.join(sig), len(cargs)))
                     unused_entries.append((k, len(cargs)))
             info.append((k, iname))
+            if not hasattr(self, 'decode_entries'): self.decode_entries = {}
+            import hashlib as _h
+            self.decode_entries.setdefault(tag, []).append({'k': k, 'name': iname, 'handler': (self.cfunc_name(self.byid[self.defn.get(hid, hid)]) if calls else None),
+                                                            'match': '%s == %s %s' % (mask_x, expected_x, ' '.join(rej_x)), 'expanded': exp_x,
+                                                            'sha': _h.sha1(('\n'.join(out[-4:])).replace('_%d' % k, '_K').encode()).hexdigest()})
         self.rules['decode table entry -> match/expanded/call functions'] += len(entries)
         n = len(entries)
         out.append('#define %s_ENTRIES %d' % (name0.upper(), n))
@@ -1938,11 +1957,39 @@ class Translator:
         return {'functions': {k: {'cxx': v[0], 'file': v[1], 'line': v[2]} for k, v in self.func_src.items()},
                 'failed': self.failed, 'rules': dict(self.rules), 'dropped': dict(self.dropped),
                 'stubs': list(self.stubs), 'calls': {k: sorted(v) for k, v in self.calls.items()},
-                'records': {k: self.rec_cxx.get(k) for k in self.records}}
+                'records': {k: self.rec_cxx.get(k) for k in self.records}, 'decode_entries': getattr(self, 'decode_entries', {})}
+
+
+def apply_symbol_prefix(t, out_c, prefix):
+    """second copy of a unit (the C01 reference): every function, stub, constant and helper is renamed <prefix><name>; record and enum
+    types are shared with the primary unit (the caller checks they are identical), so only <out>_funcs.c, <out>_protos.h and the
+    constants (moved to <out>_globals.h) are kept under the new names"""
+    import hashlib
+    names = set(t.out_funcs) | set(t.protos) | set(t.stubs) | set(t.globals) | set(getattr(t, 'fresh_done', {}).values())
+    txt_f = open(out_c + '_funcs.c').read(); txt_p = open(out_c + '_protos.h').read(); txt_t = open(out_c + '_types.h').read()
+    for rx in (r'\b(verif_copy(?:_backward)?_\w+)\b', r'\b(VDISPATCH_\w+)\b', r'\b(vdec_\w+)\b', r'\b(VDEC_\w+)\b', r'\b(fresh_\w+)\b', r'#define (\w+_GetName)\(p\)'):
+        for tx in (txt_f, txt_p, txt_t): names |= set(re.findall(rx, tx))
+    names = {n for n in names if re.match(r'^[A-Za-z_]\w*$', n)}
+    rx = re.compile(r'\b(' + '|'.join(sorted(map(re.escape, names), key=len, reverse=True)) + r')\b')
+    ren = lambda tx: rx.sub(lambda m: prefix + m.group(1), tx)
+    blocks = re.findall(r'#ifndef VERIF_G_\w+\n#define VERIF_G_\w+\n.*?\n#endif\n', txt_t, re.S) + re.findall(r'#define \w+_GetName\(p\).*\n', txt_t)
+    rest = txt_t
+    for b in blocks: rest = rest.replace(b, '')
+    open(out_c + '_globals.h', 'w').write('/* GENERATED: constants of the %s copy */\n' % prefix + ren(''.join(blocks)).replace('VERIF_G_', 'VERIF_G_' + prefix))
+    open(out_c + '_funcs.c', 'w').write(ren(txt_f))
+    open(out_c + '_protos.h', 'w').write(ren(txt_p))
+    return hashlib.sha1(rest.encode()).hexdigest(), rest
+
+
+def types_without_constants(path):
+    txt = open(path).read()
+    for b in re.findall(r'#ifndef VERIF_G_\w+\n#define VERIF_G_\w+\n.*?\n#endif\n', txt, re.S) + re.findall(r'#define \w+_GetName\(p\).*\n', txt):
+        txt = txt.replace(b, '')
+    return txt
 
 
 def extract(tu_rel, roots, out_c, opts=None, optional_roots=()):
-    chunks = astload.load(tu_rel)
+    chunks = astload.load(tu_rel, repo=(opts or {}).get('repo'))
     t = Translator(chunks, opts)
     for ty in (opts or {}).get('force_types', ()) or ():
         t.ctype_s(ty)          # types the spec headers mention even when no extracted function uses them
@@ -1958,6 +2005,11 @@ def extract(tu_rel, roots, out_c, opts=None, optional_roots=()):
         m['wrappers'] = t.write_wrappers(out_c + '_wrappers.inc', [x for x in (opts or {}).get('wrappers') if x in t.func_decl] if (opts or {}).get('wrappers') != 'all' else list(t.func_decl))
     m['roots'] = rootnames
     m['failed_required'] = bad
+    import hashlib
+    m['text_sha'] = {k: hashlib.sha1((v or '').encode()).hexdigest() for k, v in t.out_funcs.items()}
+    m['global_text'] = dict(t.globals)
+    if (opts or {}).get('symbol_prefix'):
+        m['types_sha'], _ = apply_symbol_prefix(t, out_c, opts['symbol_prefix'])
     return t, m
 
 
